@@ -299,11 +299,16 @@ def random_heap(rng, n, tree=False):
     items = {i: [] for i in range(1, n + 1)}
     for i, p in parents.items():
         items[p].append((False, i))
+    empty_seen = {"tuple": False, "frozenset": False}
     for i in range(1, n + 1):
         k = kinds[i - 1]
         if k in ("set", "frozenset"):
             # the item order of a set carries no meaning: listed ascending, as the recorder reads results back
-            items[i] = [(True, v) for v in sorted(rng.sample([1, 2, 3, 4], rng.randint(1 if k == "frozenset" else 0, 3)))]
+            # the interpreter has ONE empty frozenset (and one empty tuple): at most one node of a heap may be it
+            lo = 0 if k == "set" or (k == "frozenset" and not empty_seen["frozenset"] and i > 1) else 1
+            items[i] = [(True, v) for v in sorted(rng.sample([1, 2, 3, 4], rng.randint(lo, 3)))]
+            if k == "frozenset" and not items[i]:
+                empty_seen["frozenset"] = True
             continue
         for _ in range(rng.randint(0, 2)):
             items[i].append((True, rng.randint(1, 3)))
@@ -311,7 +316,10 @@ def random_heap(rng, n, tree=False):
             tgt = rng.randint(1, n)          # shared or cyclic reference
             items[i].append((False, tgt))
         if k == "tuple" and not items[i]:
-            items[i].append((True, 2))
+            if empty_seen["tuple"] or i == 1 or rng.random() < 0.3:
+                items[i].append((True, 2))
+            else:
+                empty_seen["tuple"] = True
         rng.shuffle(items[i])
     heap = []
     for i in range(1, n + 1):
